@@ -49,6 +49,12 @@ impl Args {
 pub fn on_fatal_signal() {}
 
 fn main() {
+    // safety net: a worker that allocates without bound (an endless iterator collected by a check) dies by itself with an
+    // allocation failure instead of exhausting the machine; every collection in the checks is bounded as well
+    unsafe {
+        let lim = libc::rlimit { rlim_cur: 24u64 << 30, rlim_max: 24u64 << 30 };
+        libc::setrlimit(libc::RLIMIT_DATA, &lim);
+    }
     let mut a = Args { prop: String::new(), tier: "quick".into(), shard: 0, nshards: 1, replay: None, extra: vec![] };
     let mut it = std::env::args().skip(1);
     while let Some(x) = it.next() {
